@@ -9,6 +9,8 @@ PID = 'C01'
 
 def kfilter(ids):
     def f(case, name, info):
+        if name == 'roundtrip_helpers' and case['ep']:
+            return None      # the twin was fitted WITHOUT an episode feature: its inverse never sees two episodes at once
         if 'F11' in ids and known.F11(case):
             return 'F11'
         return None
@@ -23,7 +25,8 @@ def run(res, tier):
     batch, failed, errors, dist, distinct, samples = _dp.run_m2(
         'c01', rng, n_m2, ('transform', 'inverse'), gen_kw=dict(max_len=3, max_depth=2))
     ev, bad, kn, s2 = _dp.run_direct(
-        rng, n_dir, [('roundtrip', lambda c, r, kp: direct.c01_roundtrip(c, kp))],
+        rng, n_dir, [('roundtrip', lambda c, r, kp: direct.c01_roundtrip(c, kp)),
+                     ('roundtrip_helpers', lambda c, r, kp: direct.c01_roundtrip_helpers(c, kp))],
         known_filter=kfilter(ids), gen_kw=dict(max_len=3, max_depth=2))
     res.coverage.update(
         evaluations=len(batch.meta) + ev, distinct_nontrivial=distinct + ev,
